@@ -69,7 +69,13 @@ def run(facts, R):
             "spawn only on the None / Ok edges")
     # sem arg comes from the per-connection option
     a0 = render_n(s.op(at["args"][0]))
-    R.check("offreader_sem" in a0, "permit-before-spawn", b.path, "acquires the per-connection semaphore", "try_acquire_owned on %s" % a0, at.get("span"), a0)
+    a0e = s.op(at["args"][0])
+    roots = [x for x in walk(a0e) if x[0] == "arg"]
+    sem_arg = any("Semaphore" in b.local_ty(x[1]) or "ConnDispatch" in b.local_ty(x[1]) or "Semaphore" in a0 for x in roots) or "offreader_sem" in a0
+    # in a coroutine the parameters are captured: arg1.<name>; fall back on the declared types of the async fn's captures
+    if not sem_arg:
+        sem_arg = any("Semaphore" in b.local_ty(l) for l in range(len(b.locals)) if b.debug_name(l) and b.debug_name(l) in a0)
+    R.check(sem_arg and "Semaphore::new" not in a0, "permit-before-spawn", b.path, "acquires the per-connection semaphore", "try_acquire_owned on %s" % a0, at.get("span"), a0)
     # the closure captures the permit produced by this acquire
     clo = s.op(st["args"][0])
     okc = clo[0] == "agg" and clo[1].startswith("closure:")
@@ -78,6 +84,12 @@ def run(facts, R):
         caps = dict(clo[3])
         worker = facts.body(clo[1].split(":", 1)[1])
         pl = caps.get("permit")
+        if pl is None:
+            # the capture holding the permit, whatever it is called: the one whose value derives from the acquire
+            for k_, v_ in caps.items():
+                cand = [v_] + ([s.rvalue(d[3]) for d in b.defs_of(v_[1]) if d[0] == "assign"] if v_[0] == "local" else [])
+                if any(_is_acq(z) or (z[0] == "call" and len(z) > 3 and z[3] == acq[0][0]) for c_ in cand for z in walk(c_)):
+                    pl = v_
         # the permit local: multi-def (Some(permit) / None); all its defs are Some(acquire Ok payload) or None
         okp = pl is not None
         if okp and pl[0] == "local":
@@ -131,6 +143,17 @@ def run(facts, R):
                     okp = ev.startswith("message::create_error_response_like(arg1.request") and "ErrorCode::InternalError" in ev
                 else:
                     okp = False
+            if not okp and eh and rep and not thens:
+                # the same decision spelled as `if notify { None } else { Some(error_like(request, InternalError)) }`
+                errs = [(x, y) for x, y in worker.calls() if x in err_b and y["callee"]["name"].startswith("create_error_response")]
+                okp = len(errs) == 1
+                for x, y in errs:
+                    ev = render_n(ws.op(y["args"][0])) + " " + render_n(ws.op(y["args"][1]))
+                    fsx = texts(facts_at(worker, ws, facts, x))
+                    okp = okp and "request" in ev and "ErrorCode::InternalError" in ev and any(z.endswith("notify is False") for z in fsx)
+                # and nothing is answered on the notify edge of the panic arm
+                nones = [(x, y, st) for x, y, st in worker.assigns() if x in err_b and st["rv"].get("agg") == "adt" and st["rv"].get("variant") == "None"]
+                okp = okp and any(any(z.endswith("notify is True") for z in texts(facts_at(worker, ws, facts, x))) for x, y, st in nones)
             R.check(okp, "catch-unwind-shape", worker.path, "panic -> InternalError with the request (non-notify only)", "panic arm does not build (!notify).then(|| error_like(request, InternalError))", t.get("span"),
                     "reported; InternalError response carrying the request id for non-notify")
             for h in eh:
